@@ -14,7 +14,7 @@ pub const DEF: PropDef = PropDef {
     run,
     replay,
     level: "exploration",
-    rule: "(1) the complete product of valid components: 38 patterns x every ordered duplicate-free modifier sequence of length <= 2 (thorough: <= 3) over {psk0..psk9, fallback} x {25519, 448, P256} x 3 ciphers x 4 hashes, enumerated exhaustively; (2) EVERY single-edit mutation (delete, duplicate, case flip, replace by / insert each character of an alphabet of name characters plus '_' '+' space NUL and non-ASCII) at every position of a sample of valid names; (2b) duplicate-free modifier lists of EVERY length 1..=257 (valid names from ~30 to ~1700 bytes, crossing 255/256/512/1024) and the same lists with one duplicate / out-of-range index / empty element, every ordered pair over psk0..psk257+fallback, two random edits; (3) random strings from a grammar-aware strategy and arbitrary Unicode; the hfs build (thorough) adds the dh+kem field and the hfs<=>kem rule. Oracle: an independent recogniser written from the statement (exactly 5 '_'-separated fields, 'Noise', longest-prefix pattern, '+'-separated non-empty duplicate-free modifiers fallback | psk<decimal u8> (| hfs), documented primitive names): parse is Ok iff the recogniser accepts; on Ok pattern, modifier list in order, dh, cipher, hash, base equal the recogniser's components and `name` is the input verbatim; on rejection the error is Error::Pattern(_). Decimal forms the statement does not settle (leading zeros, e.g. psk01) are counted and not judged. Non-trivial = a valid name with at least one modifier, or an invalid string within one edit of a valid name; distinct by string",
+    rule: "(1) the complete product of valid components: 38 patterns x every ordered duplicate-free modifier sequence of length <= 2 (thorough: <= 3) over {psk0..psk9, fallback} x {25519, 448, P256} x 3 ciphers x 4 hashes, enumerated exhaustively; (2) EVERY single-edit mutation (delete, duplicate, case flip, replace by / insert each character of an alphabet of name characters plus '_' '+' space NUL and non-ASCII) at every position of a sample of valid names; (2a) token-level edits of valid names (tokens '_', '+', 'psk', digit runs, letter runs: each duplicated, deleted, swapped with its neighbour, replaced by / preceded by every token of a 34-word vocabulary); (2b) duplicate-free modifier lists of EVERY length 1..=257 (valid names from ~30 to ~1700 bytes, crossing 255/256/512/1024) and the same lists with one duplicate / out-of-range index / empty element, every ordered pair over psk0..psk257+fallback, two random edits; (3) random strings from a grammar-aware strategy and arbitrary Unicode; the hfs build (thorough) adds the dh+kem field and the hfs<=>kem rule. Oracle: an independent recogniser written from the statement (exactly 5 '_'-separated fields, 'Noise', longest-prefix pattern, '+'-separated non-empty duplicate-free modifiers fallback | psk<decimal u8> (| hfs), documented primitive names): parse is Ok iff the recogniser accepts; on Ok pattern, modifier list in order, dh, cipher, hash, base equal the recogniser's components and `name` is the input verbatim; on rejection the error is Error::Pattern(_). Decimal forms the statement does not settle (leading zeros, e.g. psk01) are counted and not judged. Non-trivial = a valid name with at least one modifier, or an invalid string within one edit of a valid name; distinct by string",
     technique: "differential testing of the parser against a reference recogniser: exhaustive product enumeration + exhaustive single-edit mutation + proptest strings (+ libFuzzer target name_parse in the thorough tier)",
     assumptions: &["psk indices with leading zeros (psk01) and a leading '+' sign are outside what the statement settles; they are skipped"],
     panic_is_violation: false,
@@ -405,6 +405,68 @@ pub fn run(ctx: &Ctx) {
             },
             oracle,
         );
+    }
+    // token-level edits: valid names are cut into tokens ('_', '+', "psk", digit runs, letter
+    // runs) and every token is duplicated / deleted / swapped with its neighbour / replaced by and
+    // preceded by every token of a vocabulary (exhaustive over a sample of names)
+    {
+        const VOCAB: [&str; 34] = [
+            "Noise", "_", "+", "psk", "0", "1", "2", "9", "10", "255", "256", "fallback", "hfs", "XX", "X", "N", "K", "I", "IK", "X1X1", "25519", "448", "P", "P256", "ChaChaPoly", "AESGCM", "XChaChaPoly", "SHA", "SHA256", "BLAKE", "BLAKE2s", "s", "b", "Kyber1024",
+        ];
+        fn tokens(s: &str) -> Vec<String> {
+            let b = s.as_bytes();
+            let mut out = Vec::new();
+            let mut i = 0;
+            while i < b.len() {
+                let start = i;
+                if b[i] == b'_' || b[i] == b'+' {
+                    i += 1;
+                } else if s[i..].starts_with("psk") {
+                    i += 3;
+                } else if b[i].is_ascii_digit() {
+                    while i < b.len() && b[i].is_ascii_digit() {
+                        i += 1;
+                    }
+                } else {
+                    while i < b.len() && !(b[i] == b'_' || b[i] == b'+' || b[i].is_ascii_digit() || s[i..].starts_with("psk")) {
+                        i += 1;
+                    }
+                }
+                out.push(s[start..i].to_string());
+            }
+            out
+        }
+        let n_tok_names = ctx.tier.pick(250usize, 1500);
+        let mut list: Vec<Case> = Vec::new();
+        for k in 0..n_tok_names {
+            let x = mix(ctx.seed, 5000 + k as u64) as usize;
+            let m = if k % 4 == 0 { 0 } else { x % mods.len() };
+            let name = format!("Noise_{}{}_{}_{}_{}", pats[(x >> 8) % pats.len()], mods[m], dhs[(x >> 20) % dhs.len()], ciphers[(x >> 24) % 3], hashes[(x >> 28) % 4]);
+            let t = tokens(&name);
+            for i in 0..t.len() {
+                let join = |v: &Vec<String>| v.concat();
+                let mut d = t.clone();
+                d.insert(i, t[i].clone());
+                list.push(Case { s: join(&d), origin: 1 });
+                let mut d = t.clone();
+                d.remove(i);
+                list.push(Case { s: join(&d), origin: 1 });
+                if i + 1 < t.len() {
+                    let mut d = t.clone();
+                    d.swap(i, i + 1);
+                    list.push(Case { s: join(&d), origin: 1 });
+                }
+                for v in VOCAB {
+                    let mut d = t.clone();
+                    d[i] = v.to_string();
+                    list.push(Case { s: join(&d), origin: 1 });
+                    let mut d = t.clone();
+                    d.insert(i, v.to_string());
+                    list.push(Case { s: join(&d), origin: 1 });
+                }
+            }
+        }
+        ctx.run_list("token_edits", &list, true, oracle);
     }
     // every single edit of a sample of valid names
     let n_names = ctx.tier.pick(600usize, 3000);
